@@ -1515,6 +1515,306 @@ func (t *c08Tr) pairReturn(suffix string) func([]ast.Expr) (string, error) {
 	}
 }
 
+// c08RetireLoop finds the loop of multiStreamReader.recv that removes the index of an ended source
+// from chosenList, and the name of the variable that holds that index: the one range loop over
+// <rv>.chosenList in recv (`var chosen int` declared there), or — helper extraction — the single
+// statement of a private method `func (<rv> *multiStreamReader[T]) m(x int)` that recv calls exactly
+// once, as a statement, with a variable as argument.  The loop is normalised (c08NormaliseRetire).
+func c08RetireLoop(f *ast.File, fn *ast.FuncDecl, rv string, t *c08Tr) (*ast.RangeStmt, string, error) {
+	loopsOf := func(body *ast.BlockStmt) []*ast.RangeStmt {
+		var loops []*ast.RangeStmt
+		ast.Inspect(body, func(n ast.Node) bool {
+			if x, ok := n.(*ast.RangeStmt); ok && c08Sel(x.X) == rv+".chosenList" {
+				loops = append(loops, x)
+			}
+			return true
+		})
+		return loops
+	}
+	loops := loopsOf(fn.Body)
+	if len(loops) == 1 {
+		declared := false
+		ast.Inspect(fn.Body, func(n ast.Node) bool {
+			if x, ok := n.(*ast.ValueSpec); ok && len(x.Names) == 1 && x.Names[0].Name == "chosen" && c08Sel(x.Type) == "int" {
+				declared = true
+			}
+			return true
+		})
+		if !declared {
+			return nil, "", t.errf("`var chosen int` not declared")
+		}
+		l, err := c08NormaliseRetire(loops[0], false, t)
+		return l, "chosen", err
+	}
+	if len(loops) > 1 {
+		return nil, "", t.errf("%d loops over %s.chosenList", len(loops), rv)
+	}
+	// no loop in recv: a helper method called once
+	type cand struct {
+		m    *ast.FuncDecl
+		loop *ast.RangeStmt
+	}
+	var cands []cand
+	calls := map[string]int{}
+	ast.Inspect(fn.Body, func(n ast.Node) bool {
+		c, ok := n.(*ast.CallExpr)
+		if !ok {
+			return true
+		}
+		if sel, ok := c.Fun.(*ast.SelectorExpr); ok && c08Sel(sel.X) == rv {
+			calls[sel.Sel.Name]++
+		}
+		return true
+	})
+	for _, st := range c08AllStmts(fn.Body) {
+		es, ok := st.(*ast.ExprStmt)
+		if !ok {
+			continue
+		}
+		c, ok := es.X.(*ast.CallExpr)
+		if !ok || len(c.Args) != 1 {
+			continue
+		}
+		sel, ok := c.Fun.(*ast.SelectorExpr)
+		if !ok || c08Sel(sel.X) != rv {
+			continue
+		}
+		if _, ok := c.Args[0].(*ast.Ident); !ok {
+			continue
+		}
+		m, mrv := c08Method(f, "multiStreamReader", sel.Sel.Name)
+		if m == nil || m.Body == nil || mrv != rv || ast.IsExported(m.Name.Name) || (m.Type.Results != nil && len(m.Type.Results.List) != 0) {
+			continue
+		}
+		ps := c08Params(m)
+		if len(ps) != 1 || !strings.HasSuffix(ps[0], ":int") {
+			continue
+		}
+		ls := loopsOf(m.Body)
+		if len(ls) != 1 {
+			continue
+		}
+		if calls[sel.Sel.Name] != 1 {
+			return nil, "", t.errf("helper %s is called %d times", sel.Sel.Name, calls[sel.Sel.Name])
+		}
+		// the loop is the whole body of the helper
+		var rest []ast.Stmt
+		for _, s := range m.Body.List {
+			if !t.droppable(s) {
+				rest = append(rest, s)
+			}
+		}
+		if len(rest) != 1 || rest[0] != ast.Stmt(ls[0]) {
+			return nil, "", t.errf("helper %s does more than the loop over %s.chosenList", sel.Sel.Name, rv)
+		}
+		cands = append(cands, cand{m, ls[0]})
+	}
+	if len(cands) != 1 {
+		return nil, "", t.errf("0 loops over %s.chosenList in recv and %d helper methods holding one", rv, len(cands))
+	}
+	t.fn = "multiStreamReader." + cands[0].m.Name.Name + " (retire loop, called by recv)"
+	l, err := c08NormaliseRetire(cands[0].loop, true, t)
+	return l, strings.TrimSuffix(c08Params(cands[0].m)[0], ":int"), err
+}
+
+// every statement of a block, nested ones included (function literals excluded)
+func c08AllStmts(b *ast.BlockStmt) []ast.Stmt {
+	var out []ast.Stmt
+	ast.Inspect(b, func(n ast.Node) bool {
+		if _, ok := n.(*ast.FuncLit); ok {
+			return false
+		}
+		if s, ok := n.(ast.Stmt); ok {
+			out = append(out, s)
+		}
+		return true
+	})
+	return out
+}
+
+// c08NormaliseRetire rewrites two harmless variations of a range loop into the shape t.loop knows:
+//   - `for i, v := range X { if <cond over v> ... }` with v used nowhere but in the condition of the
+//     first statement (i.e. before X can have been assigned to): `for i := range X`, v replaced by X[i];
+//   - when the loop is the last statement of a function without results (lastOfFunc): a bare `return`
+//     in the loop body (not inside a nested loop / switch / select / function literal, where break
+//     means something else) is `break`.
+func c08NormaliseRetire(loop *ast.RangeStmt, lastOfFunc bool, t *c08Tr) (*ast.RangeStmt, error) {
+	key, _ := loop.Key.(*ast.Ident)
+	val, _ := loop.Value.(*ast.Ident)
+	if key != nil && key.Name != "_" && val != nil && val.Name != "_" {
+		if len(loop.Body.List) == 0 {
+			return nil, t.errf("empty loop body")
+		}
+		first, ok := loop.Body.List[0].(*ast.IfStmt)
+		if !ok || first.Init != nil {
+			return nil, t.errf("range loop with key and value whose body does not start with an if")
+		}
+		count := func(n ast.Node) int {
+			k := 0
+			ast.Inspect(n, func(x ast.Node) bool {
+				if id, ok := x.(*ast.Ident); ok && id.Name == val.Name {
+					k++
+				}
+				return true
+			})
+			return k
+		}
+		if count(loop.Body) != count(first.Cond) {
+			return nil, t.errf("range value %s is used after the first test", val.Name)
+		}
+		first.Cond = c08SubstIdent(first.Cond, val.Name, func() ast.Expr {
+			return &ast.IndexExpr{X: loop.X, Index: ast.NewIdent(key.Name)}
+		})
+		loop.Value = nil
+	}
+	if lastOfFunc {
+		var bad error
+		var walk func(list []ast.Stmt)
+		walk = func(list []ast.Stmt) {
+			for i, s := range list {
+				switch x := s.(type) {
+				case *ast.ReturnStmt:
+					if len(x.Results) != 0 {
+						bad = t.errf("return with values inside the loop")
+						return
+					}
+					list[i] = &ast.BranchStmt{TokPos: x.Pos(), Tok: token.BREAK}
+				case *ast.IfStmt:
+					walk(x.Body.List)
+					switch e := x.Else.(type) {
+					case *ast.BlockStmt:
+						walk(e.List)
+					case *ast.IfStmt:
+						walk([]ast.Stmt{e})
+					}
+				case *ast.BlockStmt:
+					walk(x.List)
+				default:
+					ast.Inspect(s, func(n ast.Node) bool {
+						if _, ok := n.(*ast.ReturnStmt); ok {
+							bad = t.errf("return nested in a %T inside the loop", s)
+						}
+						return true
+					})
+				}
+			}
+		}
+		walk(loop.Body.List)
+		if bad != nil {
+			return nil, bad
+		}
+	}
+	return loop, nil
+}
+
+// e with every identifier named name replaced by a fresh mk() (binary / unary / paren / call / index
+// expressions are rebuilt in place)
+func c08SubstIdent(e ast.Expr, name string, mk func() ast.Expr) ast.Expr {
+	switch x := e.(type) {
+	case *ast.Ident:
+		if x.Name == name {
+			return mk()
+		}
+	case *ast.ParenExpr:
+		x.X = c08SubstIdent(x.X, name, mk)
+	case *ast.UnaryExpr:
+		x.X = c08SubstIdent(x.X, name, mk)
+	case *ast.BinaryExpr:
+		x.X = c08SubstIdent(x.X, name, mk)
+		x.Y = c08SubstIdent(x.Y, name, mk)
+	case *ast.IndexExpr:
+		x.X = c08SubstIdent(x.X, name, mk)
+		x.Index = c08SubstIdent(x.Index, name, mk)
+	case *ast.CallExpr:
+		for i := range x.Args {
+			x.Args[i] = c08SubstIdent(x.Args[i], name, mk)
+		}
+	}
+	return e
+}
+
+// c08InlineForwarder: if the body of fn (a method with receiver rv) is the single statement
+// `return h(rv.m1, rv.m2, ...)` where h is a private top-level function of schema/stream.go whose
+// parameters are all of function type, the result is the body of h in which every call of a parameter
+// is the call of the method that was passed for it (from a fresh parse of the file: the body is
+// rewritten in place, and h is shared by several callers).  (nil, "", nil) if fn has another shape.
+// A parameter that is used otherwise than being called is not recognised.
+func c08InlineForwarder(repo string, fn *ast.FuncDecl, rv string) (*ast.BlockStmt, string, error) {
+	if fn.Body == nil || len(fn.Body.List) != 1 {
+		return nil, "", nil
+	}
+	ret, ok := fn.Body.List[0].(*ast.ReturnStmt)
+	if !ok || len(ret.Results) != 1 {
+		return nil, "", nil
+	}
+	call, ok := ret.Results[0].(*ast.CallExpr)
+	if !ok {
+		return nil, "", nil
+	}
+	fun := call.Fun
+	if ix, ok := fun.(*ast.IndexExpr); ok { // h[T](...)
+		fun = ix.X
+	}
+	hid, ok := fun.(*ast.Ident)
+	if !ok || ast.IsExported(hid.Name) {
+		return nil, "", nil
+	}
+	var methods []string
+	for _, a := range call.Args {
+		sel, ok := a.(*ast.SelectorExpr)
+		if !ok || c08Sel(sel.X) != rv {
+			return nil, "", nil
+		}
+		methods = append(methods, sel.Sel.Name)
+	}
+	f2, err := parser.ParseFile(token.NewFileSet(), filepath.Join(repo, "schema", "stream.go"), nil, 0)
+	if err != nil {
+		return nil, "", err
+	}
+	h := topFunc(f2, hid.Name)
+	if h == nil || h.Body == nil {
+		return nil, "", nil
+	}
+	var params []string
+	for _, fl := range h.Type.Params.List {
+		if _, ok := fl.Type.(*ast.FuncType); !ok {
+			return nil, "", fmt.Errorf("helper %s: parameter of a type that is not a function type", hid.Name)
+		}
+		for _, nm := range fl.Names {
+			params = append(params, nm.Name)
+		}
+	}
+	if len(params) != len(methods) || len(params) == 0 {
+		return nil, "", fmt.Errorf("helper %s: %d parameters for %d arguments", hid.Name, len(params), len(methods))
+	}
+	to := map[string]string{}
+	for i, p := range params {
+		to[p] = methods[i]
+	}
+	called := map[*ast.Ident]bool{}
+	ast.Inspect(h.Body, func(n ast.Node) bool {
+		if c, ok := n.(*ast.CallExpr); ok {
+			if id, ok := c.Fun.(*ast.Ident); ok && to[id.Name] != "" {
+				x, m := ast.NewIdent(rv), ast.NewIdent(to[id.Name])
+				called[id], called[x], called[m] = true, true, true // (the method may be named like the parameter)
+				c.Fun = &ast.SelectorExpr{X: x, Sel: m}
+			}
+		}
+		return true
+	})
+	var bad error
+	ast.Inspect(h.Body, func(n ast.Node) bool {
+		if id, ok := n.(*ast.Ident); ok && to[id.Name] != "" && !called[id] {
+			bad = fmt.Errorf("helper %s: parameter %s is used otherwise than being called", hid.Name, id.Name)
+		}
+		return true
+	})
+	if bad != nil {
+		return nil, "", bad
+	}
+	return h.Body, hid.Name, nil
+}
+
 func c08ExtractStreamCode(repo string) (string, string, error) {
 	fset := token.NewFileSet()
 	f, err := parser.ParseFile(fset, filepath.Join(repo, "schema", "stream.go"), nil, 0)
@@ -1622,40 +1922,28 @@ func c08ExtractStreamCode(repo string) (string, string, error) {
 		}
 		b.WriteString("Definition msr_new (sts : list nat) : msrd :=\n" + strings.TrimRight(body, "\n") + ".\n\n")
 	}
-	// (*multiStreamReader).recv: the loop over msr.chosenList
+	// (*multiStreamReader).recv: the loop over msr.chosenList — in recv itself, or in a private method
+	// of the reader that recv calls once with the index of the ended source (c08RetireLoop)
 	{
 		fn, rv := c08Method(f, "multiStreamReader", "recv")
 		if fn == nil {
 			return "", "", fmt.Errorf("method (*multiStreamReader[T]).recv not found")
 		}
-		t := &c08Tr{fn: "multiStreamReader.recv (retire loop)", recv: rv, rkind: "msrd", vars: map[string]string{"chosen": "nat"}, ignored: map[string]bool{}, ind: 1}
+		t := &c08Tr{fn: "multiStreamReader.recv (retire loop)", recv: rv, rkind: "msrd", vars: map[string]string{}, ignored: map[string]bool{}, ind: 1}
 		if rv != "msr" {
 			return "", "", t.errf("receiver is named %s", rv)
 		}
-		var loops []*ast.RangeStmt
-		declared := false
-		ast.Inspect(fn.Body, func(n ast.Node) bool {
-			switch x := n.(type) {
-			case *ast.RangeStmt:
-				if c08Sel(x.X) == rv+".chosenList" {
-					loops = append(loops, x)
-				}
-			case *ast.ValueSpec:
-				if len(x.Names) == 1 && x.Names[0].Name == "chosen" && c08Sel(x.Type) == "int" {
-					declared = true
-				}
-			}
-			return true
-		})
-		if len(loops) != 1 || !declared {
-			return "", "", t.errf("%d loops over %s.chosenList, `var chosen int` declared: %v", len(loops), rv, declared)
+		loop, chosen, err := c08RetireLoop(f, fn, rv, t)
+		if err != nil {
+			return "", "", err
 		}
-		body, err := t.stmts([]ast.Stmt{loops[0]}, c08Ctx{onEnd: func() string { return "msr" },
+		t.vars[chosen] = "nat"
+		body, err := t.stmts([]ast.Stmt{loop}, c08Ctx{onEnd: func() string { return "msr" },
 			onReturn: func([]ast.Expr) (string, error) { return "", t.errf("return inside the loop") }})
 		if err != nil {
 			return "", "", err
 		}
-		b.WriteString("Definition msr_retire (msr : msrd) (chosen : nat) : msrd :=\n" + strings.TrimRight(body, "\n") + ".\n\n")
+		b.WriteString("Definition msr_retire (msr : msrd) (" + chosen + " : nat) : msrd :=\n" + strings.TrimRight(body, "\n") + ".\n\n")
 	}
 	// (*multiStreamReader).close
 	{
@@ -1706,6 +1994,14 @@ func c08ExtractStreamCode(repo string) (string, string, error) {
 			return "", "", fmt.Errorf("method (*%s[T]).toStream not found", ts[0])
 		}
 		name := ts[0] + ".toStream"
+		// helper extraction: `return h(rv.recv, rv.close)` with h a private function of the file that
+		// takes the two methods as function values — its body with the methods put back (c08InlineForwarder)
+		if body, hname, err := c08InlineForwarder(repo, fn, rv); err != nil {
+			return "", "", fmt.Errorf("%s: %v", name, err)
+		} else if body != nil {
+			fn = &ast.FuncDecl{Name: fn.Name, Recv: fn.Recv, Type: fn.Type, Body: body}
+			name += " (via " + hname + ")"
+		}
 		cp := -1
 		var gofn *ast.FuncLit
 		for _, s := range fn.Body.List {
